@@ -5,9 +5,11 @@ SPEC = {
                  "text": 'Theorem reject_unchanged (coq/theories/ConfigLemmas.v) for all schemas, states, paths and values: an attribute / dotted-path / constructor-keyword assignment (scalar, map to a sub-configuration, list of maps) or a single-element append / replacement on a list of configurations that does not return normally yields exactly the configuration it was given -- values at every depth, default marks, dynamic fields and identities of nested configurations. The model follows core.py statement by statement (a map is loaded into a FRESH sub-configuration which replaces the old one only on success), is tied to the code by running the same histories on real Schema/Config objects and comparing the full state after every step inside Coq; a direct snapshot oracle re-checks the property on the implementation for every rejected step.',
                  "note": 'Trusted: Coq kernel + vm_compute; the correspondence harness; leaf validators abstract in the theorem. A load that fails half way (earlier keys applied) is outside the property and shown reachable by Example uncovered_may_change. Malformed documents / missing includes: the parse and include steps precede any write (Tree.v process, C18) -- checked on the implementation by the C18 includes stream. No axioms.',
                  "design_ref": "DESIGN.md section 6 C06"},
-    "streams": ['co06', 'includes'],
+    "streams": ['co06', 'includes', 'proxyops'],
     # of the includes stream (C18) only the C06 clause: a load whose include cannot be resolved leaves the configuration unchanged
-    "stream_filters": {"includes": r"changed the configuration"},
+    "stream_filters": {"includes": r"changed the configuration",
+                       # of the typed list/dict stream (C17): a single-item operation that raises leaves the container unchanged
+                       "proxyops": r"rejected single-item operation changed"},
     "witnesses": [],
     "rule": 'fixed schema with every construct: each of 66 single operations, 10 constructor-keyword cases and (quick: one eighth of, thorough: all) 4356 ordered pairs; plus seeded random schemas (depth<=3, lists of configurations, dynamic schemas, flags, validators) x histories of up to 8 (quick) / 20 (thorough) operations; non-trivial = at least one operation reached its target; distinct = distinct case',
     "trusted_base": [KERNEL, "Print Assumptions: closed under the global context (no axioms)", TIE, HARNESS,
